@@ -217,7 +217,7 @@ func runReopen(o *Opts) {
 	sink := NewSink(o.Out, "reopen", "Corr.RunManifest",
 		"cases: bundles built by the real Builder from scripted worlds (1-4 remote packages, some sharing content and therefore a directory; 0-2 registry packages with 1-4 versions, sub-paths, deprecations, metadata; package trees with empty directories, odd file modes, in-package links, unusual names, ignore files), closed, then re-opened with OpenDir and archived with WriteArchive + ExtractArchive into a second directory; compared three ways: all accessors, checksum, forward/reverse lookups relative to the root, recursive tree; the written manifest is decoded and evaluated by the model under both roots; non-trivial = build closed with at least one package; distinct by world+ops",
 		120)
-	n := 120 * o.Scale
+	n := 160 * o.Scale
 	if o.Tier == "thorough" {
 		n = 3000 * o.Scale
 	}
